@@ -85,9 +85,17 @@ inductive MCond
   | not (c : MCond)
 deriving DecidableEq, Repr
 
+/-- which check an `Err(<..>::Other(..))` belongs to.  The source offers only a human-readable message for that, and
+no property mentions message texts; what IS fixed by the code is the condition under which the error is produced,
+so an error is labelled by the innermost test that guards it. -/
+inductive ErrKind
+  | bodyCheck          -- guarded by `<body>.is_empty()`
+  | contentTypeCheck   -- guarded by a test on the Content-Type value
+deriving DecidableEq, Repr
+
 inductive MFlow
   | ok
-  | err (w : Why)
+  | err (k : ErrKind)
   | ite (c : MCond) (t e : MFlow)
   | andThen (a b : MFlow)
   | contentType (absent present : MFlow)
@@ -105,11 +113,11 @@ def statusCode : String → Option Nat
   | "StatusCode::UNAUTHORIZED" => some 401
   | _ => none
 
-/-- the three `RequestTokenError::Other` messages of the response path ↦ `Resp.Why` -/
-def whyOf : String → Option Why
-  | "server returned empty error response" => some .emptyError
-  | "unexpected response Content-Type: {content_type:?}, should be `{CONTENT_TYPE_JSON}`" => some .contentType
-  | "server returned empty response body" => some .emptyBody
+/-- the label a condition gives to an `Other` error it guards (either polarity); a status test gives none -/
+def kindOfCond : Cond → Option ErrKind
+  | .bodyIsEmpty => some .bodyCheck
+  | .headerTest _ _ _ => some .contentTypeCheck
+  | .not c => kindOfCond c
   | _ => none
 
 /-- `str::to_lowercase` / `to_ascii_lowercase` on text that passed `HeaderValue::to_str` (visible ASCII) -/
@@ -142,18 +150,22 @@ def compileCond : Cond → Option MCond
     else none
   | .not c => (compileCond c).map .not
 
-def compile : Flow → Option MFlow
+/-- `g` = the label of the innermost enclosing body / Content-Type test (an `Other` error outside any such test is
+not readable) -/
+def compileG (g : Option ErrKind) : Flow → Option MFlow
   | .ok => some .ok
-  | .errOther m => (whyOf m).map .err
-  | .ite c t e => match compileCond c, compile t, compile e with
+  | .errOther => g.map .err
+  | .ite c t e =>
+    let g' := (kindOfCond c).orElse fun _ => g
+    match compileCond c, compileG g' t, compileG g' e with
     | some c', some t', some e' => some (.ite c' t' e')
     | _, _, _ => none
-  | .andThen a b => match compile a, compile b with
+  | .andThen a b => match compileG g a, compileG g b with
     | some a', some b' => some (.andThen a' b')
     | _, _ => none
   | .header name absent present =>
     if name = "CONTENT_TYPE" then
-      match compile absent, compile present with
+      match compileG g absent, compileG g present with
       | some a', some p' => some (.contentType a' p')
       | _, _ => none
     else none
@@ -162,6 +174,8 @@ def compile : Flow → Option MFlow
     if de = "deserialize_json" ∧ okV = "ServerResponse" ∧ errV = "Parse" ∧ keeps = true then some .decodeError else none
   | .decodeSuccess de errV keeps =>
     if de = "deserialize_json" ∧ errV = "Parse" ∧ keeps = true then some .decodeSuccess else none
+
+def compile (f : Flow) : Option MFlow := compileG none f
 
 /-! ## 3. Running a tree on a reply -/
 
@@ -187,7 +201,9 @@ def MCond.holds (r : Reply) (hv : Bytes) : MCond → Bool
 def MFlow.eval {α ε ρ} (decOk : Bytes → Option α) (decErr : Bytes → Option ε) (r : Reply) (hv : Bytes) :
     MFlow → Option (Outcome α ε ρ)
   | .ok => none
-  | .err w => some (.other w)
+  -- the model's two labels for "the body is empty" name the same check in the two status regions
+  | .err .bodyCheck => some (.other (if r.status = 200 then .emptyBody else .emptyError))
+  | .err .contentTypeCheck => some (.other .contentType)
   | .ite c t e => if c.holds r hv then t.eval decOk decErr r hv else e.eval decOk decErr r hv
   | .andThen a b => match a.eval decOk decErr r hv with
     | some o => some o
